@@ -2,8 +2,8 @@ package main
 
 import (
 	"flag"
-	"go/types"
 	"fmt"
+	"go/types"
 	"os"
 	"runtime/debug"
 	"strconv"
@@ -144,14 +144,14 @@ func main() {
 }
 
 type RunOpts struct {
-	Tier, Rule    string
-	Explain       bool
-	Repo, Verif   string
-	Seed          int
-	Start         time.Time
-	Mutant        string
-	NoEvidence    bool
-	Shared        **World
+	Tier, Rule  string
+	Explain     bool
+	Repo, Verif string
+	Seed        int
+	Start       time.Time
+	Mutant      string
+	NoEvidence  bool
+	Shared      **World
 }
 
 // runProperty runs all rules of one property; returns the process exit code contribution.
